@@ -6,6 +6,7 @@ package main
 // spec/Trace_Encoder.tla.
 
 import (
+	"bytes"
 	"errors"
 	"fmt"
 	"strings"
@@ -413,6 +414,15 @@ func driveEncoder(c *driverCtx, prop string) error {
 			cases = append(cases, hcase{codec, 1 << 20, append(recs, encOp{flush: true})})
 			cases = append(cases, hcase{codec + "|empty", 1 << 20, append(append([]encOp{}, recs...), encOp{flush: true})})
 		}
+	}
+	// blocks of several KiB that compress well, followed by more of the same: the threshold is about the buffered
+	// encodings, whatever they compress to
+	for _, codec := range []string{"deflate", "snappy", "null"} {
+		recs := make([]encOp, 0, 70)
+		for i := 0; i < 60; i++ {
+			recs = append(recs, encOp{p: bytes.Repeat([]byte{byte('a' + i%3)}, 300)})
+		}
+		cases = append(cases, hcase{codec, 5000, append(recs, encOp{flush: true})})
 	}
 	// counts and payload lengths around the one- / two-byte varint boundary of the block framing (63, 64, 65)
 	for _, n := range []int{63, 64, 65} {
